@@ -31,6 +31,8 @@ pub struct VerifProbe {
     pub path_total_recvd: u64,
     /// Whether a previous path is still retained
     pub has_prev_path: bool,
+    /// Current probe timeout of the application data space (the largest of the three spaces)
+    pub pto: std::time::Duration,
 }
 
 impl Connection {
@@ -67,6 +69,7 @@ impl Connection {
             path_total_sent: self.path.total_sent,
             path_total_recvd: self.path.total_recvd,
             has_prev_path: self.prev_path.is_some(),
+            pto: self.pto(SpaceId::Data),
         }
     }
 }
